@@ -22,9 +22,13 @@ Part A — synthetic CFGs from REAL `CFG` / `BB` objects (cfg/cfg.py, cfg/bb.py)
   include_unreachable=False).
 Part B — CFGs produced by the REAL `CFGBuilder` from every function body of a small
   statement grammar (if/while/return/break/continue/constant conditions/code after a
-  jump), deduplicated structurally; same exploration (full up to a block bound, above
-  it every schedule with <= 2 deviations from the default order).  Part B also checks
-  that every builder CFG satisfies the shape invariants I1-I6 below.
+  jump; quick: <= 3 statements, thorough: <= 4), deduplicated structurally; same
+  exploration (every order up to a block bound, above it — thorough only — every order
+  with <= 2 deviations from the default order).  Part B also checks that every builder
+  CFG satisfies the shape invariants I1-I6 below.
+Part A uses schedx's stateless replay strategy; Part B its in-place strategy, which a
+  cross-check (every order, and <= 1 deviation, of all builder-shaped n <= 3 CFGs) shows to
+  produce identical states / transitions / results / witnesses.
 
 Oracle (independent of any fixpoint computation: plain graph searches per variable)
 -----------------------------------------------------------------------------------
@@ -385,7 +389,9 @@ def check_cfg(cfg, used, assigned, mode, param, nvars, max_deviations=None, stra
     # order produces are wrong results in their own right.
     extra["mismatches_under_order_dependence"] = len(mismatches) if order_dependent else 0
     if not order_dependent:
-        symptoms.extend((f"wrong-result:{k}", d) for k, d in mismatches)
+        # under a deviation bound a single wrong result may still be one of several
+        tag = "wrong-result" if max_deviations is None else "mismatch-within-deviation-bound"
+        symptoms.extend((f"{tag}:{k}", d) for k, d in mismatches)
     return rep, symptoms, extra
 
 
@@ -519,6 +525,7 @@ def _account(agg, rep, symptoms, extra, shaped, has_dummy, mode, param, descr, i
         seen.add(sym)
         dm = "dummy-edges" if has_dummy else "no-dummy-edges"
         key = (f"{mode}:{sym}:{_param_tag(mode, param)}" if sym.startswith("wrong-result")
+               else f"{mode}:{sym}" if sym.startswith("mismatch-within")
                else f"{mode}:{sym}:{dm}")
         tgt = agg["viol"] if shaped else agg["general"]
         if key in tgt:
@@ -765,7 +772,7 @@ def _plan(tier):
         P(n=3, nvars=2, max_dummy=2),
         P(n=4, nvars=1, max_dummy=2),
         P(n=4, nvars=2, modes=("AA",)),
-        P(n=4, nvars=2, modes=("LA",), alph=_NO_UA),
+        P(n=4, nvars=2, modes=("LA",), alph=_NO_UA, only=((),)),
         P(n=5, nvars=1, modes=("AA",), max_total_dummy=1),
         P(n=5, nvars=1, modes=("LA", "LF"), alph=_NO_UA1, only=((),), max_total_dummy=1),
     ]
@@ -832,7 +839,7 @@ def run(ctx):
     jobs += [(len(groups) - 1, "I", t) for t in ind_tasks]
     groups.append(("S", "strategies", len(ind_tasks), 0))
     jobs += [(len(groups) - 1, "S", t) for t in ind_tasks]
-    b_bounds = [(2, 8, "replay")] if ctx.quick else [(3, 8, "inplace"), (4, 6, "inplace")]
+    b_bounds = [(3, 8, "inplace")] if ctx.quick else [(3, 8, "inplace"), (4, 6, "inplace")]
     built = n_cfgs = 0
     shape_bad = []
     seen_sigs = set()
